@@ -517,10 +517,14 @@ func (e *multiEnv) retain(ids []uint64) {
 
 // checkFiles (C09): every file referenced by a live operator's latest `checkpoints` document or by its live level set exists.
 func (e *multiEnv) checkFiles(when string) {
+	var pins []any // described level lists stay referenced until existence was checked
+	defer func() { runtime.KeepAlive(pins) }()
 	for _, o := range e.ops {
 		refs := map[string]string{}
 		if db := o.node.Op.VerifDB(); db != nil {
-			for li, lvl := range db.VerifLayout().Levels {
+			lay := db.VerifLayout()
+			pins = append(pins, lay.Pin)
+			for li, lvl := range lay.Levels {
 				for _, t := range lvl {
 					refs[t.URI] = fmt.Sprintf("live level set of %s (L%d)", o.node.ID, li)
 				}
